@@ -130,6 +130,63 @@ Qed.
 
 End RowFacts.
 
+
+(* ---------- list slicing helpers (absent from the 8.16 standard library) ---------- *)
+Section Slices.
+Context {X : Type}.
+
+Lemma nth_skipn' (l : list X) k i d : nth i (skipn k l) d = nth (k + i) l d.
+Proof. revert l; induction k as [|k IH]; intros l; [reflexivity|]. destruct l; [destruct i; reflexivity|apply IH]. Qed.
+
+Lemma nth_firstn' (l : list X) k i d : i < k -> nth i (firstn k l) d = nth i l d.
+Proof.
+  revert l i; induction k as [|k IH]; intros l i H; [lia|].
+  destruct l; [destruct i; reflexivity|]. destruct i; [reflexivity|]. simpl. apply IH. lia.
+Qed.
+
+Lemma skipn_skipn' (l : list X) a b : skipn a (skipn b l) = skipn (b + a) l.
+Proof. revert l; induction b as [|b IH]; intros l; [reflexivity|]. destruct l; [destruct a; reflexivity|apply IH]. Qed.
+
+Lemma indexed_from_app (s : nat) (l1 l2 : list X) :
+  indexed_from s (l1 ++ l2) = indexed_from s l1 ++ indexed_from (s + length l1) l2.
+Proof.
+  revert s; induction l1 as [|x l1 IH]; intros s; simpl; [rewrite Nat.add_0_r; reflexivity|].
+  rewrite IH. replace (S s + length l1) with (s + S (length l1)) by lia. reflexivity.
+Qed.
+
+End Slices.
+
+Lemma index_of_map (f : nat -> nat) c cm d : In c cm -> nth (index_of c cm) (map f cm) d = f c.
+Proof.
+  induction cm as [|x cm IH]; simpl; intros H; [contradiction|].
+  destruct (x =? c) eqn:E; [apply Nat.eqb_eq in E; subst; reflexivity|].
+  destruct H as [H|H]; [subst; rewrite Nat.eqb_refl in E; discriminate|]. apply IH. exact H.
+Qed.
+
+Lemma index_of_map' {Y} (f : nat -> Y) c cm d : In c cm -> nth (index_of c cm) (map f cm) d = f c.
+Proof.
+  induction cm as [|x cm IH]; simpl; intros H; [contradiction|].
+  destruct (x =? c) eqn:E; [apply Nat.eqb_eq in E; subst; reflexivity|].
+  destruct H as [H|H]; [subst; rewrite Nat.eqb_refl in E; discriminate|]. apply IH. exact H.
+Qed.
+
+Lemma index_of_nth c cm : In c cm -> nth (index_of c cm) cm 0 = c.
+Proof. intros H. rewrite <- (map_id cm) at 2. apply (index_of_map' (fun x => x)). exact H. Qed.
+
+Lemma insert_u_in x y l : In y (insert_u x l) <-> y = x \/ In y l.
+Proof.
+  induction l as [|z l IH]; simpl; [intuition|].
+  destruct (x <? z); [simpl; intuition|].
+  destruct (x =? z) eqn:E.
+  - apply Nat.eqb_eq in E. subst. simpl. intuition.
+  - simpl. rewrite IH. intuition.
+Qed.
+
+Lemma sort_uniq_in y l : In y (sort_uniq l) <-> In y l.
+Proof.
+  induction l as [|x l IH]; simpl; [tauto|]. rewrite insert_u_in, IH. intuition.
+Qed.
+
 (* ---------- the ordered field: only these three facts about  <  are used ---------- *)
 Section Order.
 Variable F : Type.
@@ -400,6 +457,13 @@ Proof.
   rewrite nth_map_seq by exact H. rewrite Nat.sub_0_r. reflexivity.
 Qed.
 
+Lemma nth_map_indexed' {A B} (g : nat * A -> B) (l : list A) i dA dB :
+  i < length l -> nth i (map g (indexed l)) dB = g (i, nth i l dA).
+Proof.
+  intros H. unfold indexed. rewrite (indexed_from_seq 0 l dA), map_map.
+  rewrite nth_map_seq by exact H. rewrite Nat.sub_0_r. reflexivity.
+Qed.
+
 Definition rows_nodup (rows : list row) : Prop := forall r, In r rows -> NoDup (map fst r).
 
 Lemma rows_nodup_nth rows i : rows_nodup rows -> NoDup (map fst (nth i rows [])).
@@ -423,4 +487,724 @@ Proof.
     rewrite (nth_overflow rows) by exact Hi. reflexivity.
 Qed.
 
+(* ---------- a generic row kernel: prepared row, diagonal split off, off-diagonals filtered by a test
+   that may depend on the diagonal value and (up to permutation) on the off-diagonal part ---------- *)
+Definition row_kernel (test : F -> row -> nat * F -> bool) (i : nat) (r : row) : row :=
+  let r' := prep_row i r in
+  match r' with
+  | [] => []
+  | _ :: _ => let '(has, d, rest) := split_diag i r' in
+              (if has then [(i, d)] else []) ++ filter (test d rest) rest
+  end.
+
+Definition test_perm_inv (test : F -> row -> nat * F -> bool) : Prop :=
+  forall d l l' p, Permutation l l' -> test d l p = test d l' p.
+
+Lemma row_kernel_canon test i (r : row) :
+  test_perm_inv test -> NoDup (map fst r) -> r <> [] ->
+  exists d rest,
+    diag_is i r d /\ Permutation rest (offd i r) /\
+    row_kernel test i r =
+      (if existsb (fun q => fst q =? i) r then [(i, d)] else []) ++ filter (test d (offd i r)) rest.
+Proof.
+  intros Ht Hn Hne. unfold row_kernel.
+  destruct (prep_row_shape F i r Hn) as [[d [rest [Hp [Hin [Hperm Hrest]]]]]|[Hperm Hno]].
+  - exists d, rest. split; [left; exact Hin|]. split; [exact Hperm|].
+    rewrite Hp. cbn [Strength.split_diag fst snd]. rewrite Nat.eqb_refl.
+    rewrite (existsb_diag_true i r d Hin). f_equal. apply filter_ext. intros p. apply Ht. exact Hperm.
+  - exists zero, (prep_row i r). split; [right; split; [exact Hno|reflexivity]|].
+    rewrite (offd_nodiag i r Hno). split; [exact Hperm|].
+    replace (existsb (fun q => fst q =? i) r) with false.
+    2:{ symmetry. apply Bool.not_true_is_false. intros H. apply existsb_exists in H. destruct H as [q [Hq He]].
+        apply Nat.eqb_eq in He. exact (Hno q Hq He). }
+    destruct (prep_row i r) as [|p r'] eqn:E; [apply prep_row_nil in E; contradiction|].
+    assert (Hp : fst p <> i) by (apply Hno; eapply Permutation_in; [exact Hperm|left; reflexivity]).
+    cbn [Strength.split_diag]. apply Nat.eqb_neq in Hp. rewrite Hp.
+    f_equal. apply filter_ext. intros q. apply Ht. exact Hperm.
+Qed.
+
+Lemma row_kernel_subset test i (r : row) p : In p (row_kernel test i r) -> In p r.
+Proof.
+  unfold row_kernel. intros H.
+  apply (Permutation_in _ (prep_row_perm F i r)).
+  destruct (prep_row i r) as [|q r'] eqn:E; [contradiction|].
+  assert (S := split_diag_shape i (q :: r')).
+  destruct (split_diag i (q :: r')) as [[has d] rest].
+  apply in_app_or in H. destruct has.
+  - rewrite S. destruct H as [[<-|[]]|H]; [left; reflexivity|right]. apply filter_In in H. tauto.
+  - destruct S as [S _]. rewrite <- S. destruct H as [[]|H]. apply filter_In in H. tauto.
+Qed.
+
+Lemma row_kernel_diag test i (r : row) d :
+  test_perm_inv test -> NoDup (map fst r) -> In (i, d) r -> In (i, d) (row_kernel test i r).
+Proof.
+  intros Ht Hn Hin. assert (Hne : r <> []) by (intros ->; contradiction).
+  destruct (row_kernel_canon test i r Ht Hn Hne) as [d' [rest [Hd [_ Heq]]]].
+  rewrite Heq. rewrite (existsb_diag_true i r d Hin).
+  assert (d = d') by (eapply diag_is_unique; [exact Hn|left; exact Hin|exact Hd]). subst d'.
+  left. reflexivity.
+Qed.
+
+Lemma row_kernel_test test i (r : row) j v :
+  test_perm_inv test -> NoDup (map fst r) -> j <> i ->
+  (In (j, v) (row_kernel test i r) <->
+   In (j, v) r /\ exists d, diag_is i r d /\ test d (offd i r) (j, v) = true).
+Proof.
+  intros Ht Hn Hji. destruct r as [|p0 r0] eqn:Er.
+  { unfold row_kernel. simpl. split; [intros []|intros [[] _]]. }
+  rewrite <- Er in *. assert (Hne : r <> []) by (rewrite Er; discriminate).
+  destruct (row_kernel_canon test i r Ht Hn Hne) as [d [rest [Hd [Hperm Heq]]]].
+  rewrite Heq. clear Heq. split.
+  - intros Hin. apply in_app_or in Hin. destruct Hin as [Hin|Hin].
+    { destruct (existsb _ r); [destruct Hin as [E|[]]; inversion E; congruence|contradiction]. }
+    apply filter_In in Hin. destruct Hin as [Hin Hc]. split.
+    { apply (Permutation_in _ Hperm) in Hin. apply filter_In in Hin. tauto. }
+    exists d. split; assumption.
+  - intros [Hin [d' [Hd' Hc]]].
+    assert (d' = d) by (eapply diag_is_unique; eassumption). subst d'.
+    apply in_or_app. right. apply filter_In. split; [|exact Hc].
+    apply (Permutation_in _ (Permutation_sym Hperm)). apply filter_In. split; [exact Hin|].
+    simpl. apply Bool.negb_true_iff. apply Nat.eqb_neq. exact Hji.
+Qed.
+
+Lemma row_kernel_nodup test i (r : row) :
+  test_perm_inv test -> NoDup (map fst r) -> NoDup (map fst (row_kernel test i r)).
+Proof.
+  intros Ht Hn. destruct r as [|p0 r0] eqn:Er; [constructor|].
+  rewrite <- Er in *. assert (Hne : r <> []) by (rewrite Er; discriminate).
+  destruct (row_kernel_canon test i r Ht Hn Hne) as [d [rest [Hd [Hperm Heq]]]].
+  rewrite Heq. clear Heq.
+  assert (Hnr : NoDup (map fst rest)).
+  { eapply Permutation_NoDup; [apply Permutation_map; apply Permutation_sym; exact Hperm|].
+    apply NoDup_map_filter. exact Hn. }
+  destruct (existsb _ r); simpl; [|apply NoDup_map_filter; exact Hnr].
+  constructor; [|apply NoDup_map_filter; exact Hnr].
+  intros Hin. apply in_map_iff in Hin. destruct Hin as [q [Hq Hin]]. apply filter_In in Hin.
+  destruct Hin as [Hin _]. apply (Permutation_in _ Hperm) in Hin. apply filter_In in Hin.
+  destruct Hin as [_ Hc]. apply Bool.negb_true_iff in Hc. apply Nat.eqb_neq in Hc. exact (Hc Hq).
+Qed.
+
+(* ---------- symmetric measure ---------- *)
+Notation sym_info := (sym_info F zero mul ltb big nbig).
+Notation symmetric_row := (symmetric_row F zero ltb).
+Notation sym_pass := (sym_pass F ltb).
+Notation info_default := (info_default F zero).
+
+(* what the first loop stores for row i: (neg_diags[i], row_scales[i]) *)
+Definition info_spec (theta : F) (i : nat) (r : row) (inf : bool * F) : Prop :=
+  (r = [] /\ inf = (false, zero)) \/
+  (r <> [] /\ exists d m, diag_is i r d /\ is_extreme (ltb d zero) m (map snd (offd i r)) /\
+                          inf = (ltb d zero, mul m theta)).
+
+Lemma map_snd_perm (l l' : row) : Permutation l l' -> Permutation (map snd l) (map snd l').
+Proof. apply Permutation_map. Qed.
+
+Lemma sym_info_spec theta i (r : row) : NoDup (map fst r) -> info_spec theta i r (sym_info theta i r).
+Proof.
+  intros Hn. destruct r as [|p0 r0] eqn:Er; [left; split; reflexivity|].
+  rewrite <- Er in *. assert (Hne : r <> []) by (rewrite Er; discriminate).
+  right. split; [exact Hne|]. unfold Strength.sym_info.
+  destruct (prep_row_shape F i r Hn) as [[d [rest [Hp [Hin [Hperm Hrest]]]]]|[Hperm Hno]].
+  - exists d, (extreme_from (ltb d zero) (sentinel (ltb d zero)) (map snd (offd i r))).
+    split; [left; exact Hin|]. split; [apply extreme_is_extreme|].
+    rewrite Hp. cbn [Strength.split_diag fst snd]. rewrite Nat.eqb_refl.
+    rewrite (extreme_from_perm _ _ _ (map_snd_perm _ _ Hperm)). reflexivity.
+  - exists zero, (extreme_from (ltb zero zero) (sentinel (ltb zero zero)) (map snd (offd i r))).
+    split; [right; split; [exact Hno|reflexivity]|]. split; [apply extreme_is_extreme|].
+    rewrite (offd_nodiag i r Hno).
+    destruct (prep_row i r) as [|p r'] eqn:E; [apply prep_row_nil in E; contradiction|].
+    assert (Hp : fst p <> i) by (apply Hno; eapply Permutation_in; [exact Hperm|left; reflexivity]).
+    cbn [Strength.split_diag]. apply Nat.eqb_neq in Hp. rewrite Hp.
+    rewrite (extreme_from_perm _ _ _ (map_snd_perm _ _ Hperm)). reflexivity.
+Qed.
+
+Lemma info_spec_unique theta i (r : row) a b :
+  NoDup (map fst r) -> info_spec theta i r a -> info_spec theta i r b -> a = b.
+Proof.
+  intros Hn [[H1 ->]|[H1 [d [m [Hd [Hm ->]]]]]] [[H2 ->]|[H2 [d' [m' [Hd' [Hm' ->]]]]]]; try reflexivity; try contradiction.
+  assert (d = d') by (eapply diag_is_unique; eassumption). subst d'.
+  assert (m = m') by (eapply is_extreme_unique; eassumption). subst m'. reflexivity.
+Qed.
+
+Definition sym_test (infos : list (bool * F)) (i : nat) : F -> row -> nat * F -> bool :=
+  fun _ _ p => sym_pass (nth i infos info_default) (nth (fst p) infos info_default) (snd p).
+
+Lemma symmetric_row_kernel infos i (r : row) : symmetric_row infos i r = row_kernel (sym_test infos i) i r.
+Proof.
+  unfold Strength.symmetric_row, row_kernel. destruct (prep_row i r); [reflexivity|].
+  destruct (split_diag i (p :: r0)) as [[has d] rest]. reflexivity.
+Qed.
+
+Lemma sym_test_perm_inv infos i : test_perm_inv (sym_test infos i).
+Proof. intros d l l' p _. reflexivity. Qed.
+
+Lemma sym_infos_length theta rows : length (sym_infos F zero mul ltb big nbig theta rows) = length rows.
+Proof. unfold sym_infos, indexed. rewrite map_length, indexed_from_length. reflexivity. Qed.
+
+Lemma sym_infos_nth theta rows j :
+  nth j (sym_infos F zero mul ltb big nbig theta rows) info_default = sym_info theta j (nth j rows []).
+Proof.
+  destruct (Nat.lt_ge_cases j (length rows)) as [Hj|Hj].
+  - unfold sym_infos. apply (nth_map_indexed (fun i r => sym_info theta i r)). exact Hj.
+  - rewrite nth_overflow by (rewrite sym_infos_length; exact Hj).
+    rewrite (nth_overflow rows) by exact Hj. reflexivity.
+Qed.
+
+Lemma symmetric_strength_length theta rows :
+  length (symmetric_strength F zero mul ltb big nbig theta rows) = length rows.
+Proof. unfold symmetric_strength, indexed. rewrite map_length, indexed_from_length. reflexivity. Qed.
+
+Lemma symmetric_strength_nth theta rows i :
+  nth i (symmetric_strength F zero mul ltb big nbig theta rows) [] =
+  symmetric_row (sym_infos F zero mul ltb big nbig theta rows) i (nth i rows []).
+Proof.
+  destruct (Nat.lt_ge_cases i (length rows)) as [Hi|Hi].
+  - unfold symmetric_strength.
+    apply (nth_map_indexed (fun i r => symmetric_row (sym_infos F zero mul ltb big nbig theta rows) i r)). exact Hi.
+  - rewrite nth_overflow by (rewrite symmetric_strength_length; exact Hi).
+    rewrite (nth_overflow rows) by exact Hi. reflexivity.
+Qed.
+
+(* THE documented test, symmetric measure: (j,v) in row i is strong iff v passes the threshold test of row i
+   or the threshold test of row j (the row of its column); a row's test is that of the classical measure without
+   variable filter: v > theta*max when the row's diagonal is negative, v < theta*min otherwise; a row without
+   entries has threshold 0 and counts as non-negative. *)
+Definition strong_symmetric (theta : F) (rows : list row) (i j : nat) (v : F) : Prop :=
+  j <> i /\ In (j, v) (nth i rows []) /\
+  exists a b, info_spec theta i (nth i rows []) a /\ info_spec theta j (nth j rows []) b /\
+              (passes (fst a) (snd a) v = true \/ passes (fst b) (snd b) v = true).
+
+Lemma symmetric_strength_test theta rows i j v :
+  rows_nodup rows -> j <> i ->
+  (In (j, v) (nth i (symmetric_strength F zero mul ltb big nbig theta rows) []) <-> strong_symmetric theta rows i j v).
+Proof.
+  intros Hn Hji. rewrite symmetric_strength_nth, symmetric_row_kernel.
+  assert (Hni := rows_nodup_nth rows i Hn). assert (Hnj := rows_nodup_nth rows j Hn).
+  rewrite (row_kernel_test _ i _ j v (sym_test_perm_inv _ i) Hni Hji).
+  unfold sym_test, Strength.sym_pass. cbn [fst snd]. rewrite !sym_infos_nth.
+  split.
+  - intros [Hin [d [Hd Hp]]]. split; [exact Hji|]. split; [exact Hin|].
+    exists (sym_info theta i (nth i rows [])), (sym_info theta j (nth j rows [])).
+    split; [apply sym_info_spec; exact Hni|]. split; [apply sym_info_spec; exact Hnj|].
+    apply Bool.orb_true_iff in Hp. exact Hp.
+  - intros [_ [Hin [a [b [Ha [Hb Hp]]]]]]. split; [exact Hin|].
+    assert (a = sym_info theta i (nth i rows [])) by (eapply info_spec_unique; [exact Hni|exact Ha|apply sym_info_spec; exact Hni]).
+    assert (b = sym_info theta j (nth j rows [])) by (eapply info_spec_unique; [exact Hnj|exact Hb|apply sym_info_spec; exact Hnj]).
+    subst a b.
+    assert (exists d, diag_is i (nth i rows []) d) as [d Hd].
+    { destruct (prep_row_shape F i _ Hni) as [[d [rest [_ [Hd _]]]]|[_ Hno]].
+      - exists d. left. exact Hd.
+      - exists zero. right. split; [exact Hno|reflexivity]. }
+    exists d. split; [exact Hd|]. apply Bool.orb_true_iff. exact Hp.
+Qed.
+
+(* ---------- distributed = sequential: row level ---------- *)
+Notation par_classical_row := (par_classical_row F zero mul ltb big nbig).
+Notation on_part := (on_part F).
+Notation off_part := (off_part F).
+Notation gather_row := (gather_row F).
+
+Lemma par_classical_row_canon theta nv vl ov il (ron roff : row) d :
+  NoDup (map fst ron) -> In (il, d) ron ->
+  exists rest,
+    Permutation rest (offd il ron) /\
+    let neg := ltb d zero in
+    let kon := same_var nv (nth il vl 0) vl in
+    let koff := same_var nv (nth il vl 0) ov in
+    let thr := mul (extreme_from neg (sentinel neg) (kept_vals kon (offd il ron) ++ kept_vals koff roff)) theta in
+    par_classical_row theta nv vl ov il ron roff =
+      ((il, d) :: filter (fun p => kon (fst p) && passes neg thr (snd p)) rest,
+       filter (fun p => koff (fst p) && passes neg thr (snd p)) (sort_line roff)).
+Proof.
+  intros Hn Hin. unfold Strength.par_classical_row.
+  destruct (prep_row_shape F il ron Hn) as [[d' [rest [Hp [Hin' [Hperm Hrest]]]]]|[_ Hno]].
+  2:{ exfalso. apply (Hno _ Hin). reflexivity. }
+  assert (d' = d) by (assert (E := nodup_fst_unique F ron _ _ Hn Hin' Hin eq_refl); congruence). subst d'.
+  exists rest. split; [exact Hperm|]. rewrite Hp. cbn [Strength.split_diag fst snd]. rewrite Nat.eqb_refl.
+  cbv zeta. rewrite extreme_from_app.
+  rewrite (extreme_from_perm (ltb d zero) _ _
+             (Permutation_app (kept_vals_perm (same_var nv (nth il vl 0) vl) _ _ Hperm)
+                              (kept_vals_perm (same_var nv (nth il vl 0) ov) _ _ (sort_line_perm F roff)))).
+  reflexivity.
+Qed.
+
+Lemma in_range_spec l m c : in_range l m c = true <-> l <= c < l + m.
+Proof.
+  unfold in_range. rewrite Bool.andb_true_iff, Nat.leb_le, Nat.ltb_lt. tauto.
+Qed.
+
+Lemma NoDup_map_inj_in {A B} (f : A -> B) (l : list A) :
+  (forall x y, In x l -> In y l -> f x = f y -> x = y) -> NoDup l -> NoDup (map f l).
+Proof.
+  induction l as [|a l IH]; simpl; intros Hf Hn; [constructor|].
+  inversion Hn as [|? ? Ha Hn']; subst. constructor.
+  - intros Hin. apply in_map_iff in Hin. destruct Hin as [y [Hy Hin]].
+    assert (y = a) by (apply Hf; [right; exact Hin|left; reflexivity|exact Hy]). subst. contradiction.
+  - apply IH; [|exact Hn']. intros x y Hx Hy. apply Hf; right; assumption.
+Qed.
+
+Definition ren_on (lo : nat) (p : nat * F) : nat * F := (fst p - lo, snd p).
+Definition ren_off (cm : list nat) (p : nat * F) : nat * F := (index_of (fst p) cm, snd p).
+
+Lemma on_part_in lo n (R : row) p : In p (on_part lo n R) <-> In p R /\ lo <= fst p < lo + n.
+Proof. unfold Strength.on_part. rewrite filter_In, in_range_spec. tauto. Qed.
+
+Lemma off_part_in lo n (R : row) p : In p (off_part lo n R) <-> In p R /\ ~ (lo <= fst p < lo + n).
+Proof.
+  unfold Strength.off_part. rewrite filter_In, Bool.negb_true_iff.
+  rewrite <- Bool.not_true_iff_false, in_range_spec. tauto.
+Qed.
+
+Lemma ron_nodup lo n (R : row) : NoDup (map fst R) -> NoDup (map fst (map (ren_on lo) (on_part lo n R))).
+Proof.
+  intros Hn. rewrite map_map. cbn [ren_on fst].
+  assert (Hn' : NoDup (map fst (on_part lo n R))) by (apply NoDup_map_filter; exact Hn).
+  rewrite <- (map_map fst (fun c => c - lo)). apply NoDup_map_inj_in; [|exact Hn'].
+  intros x y Hx Hy E. apply in_map_iff in Hx. apply in_map_iff in Hy.
+  destruct Hx as [p [<- Hp]]. destruct Hy as [q [<- Hq]]. apply on_part_in in Hp. apply on_part_in in Hq. lia.
+Qed.
+
+Lemma Permutation_filter_map {A B} (f : A -> B) (p : B -> bool) l l' :
+  Permutation l (map f l') -> Permutation (filter p l) (map f (filter (fun a => p (f a)) l')).
+Proof. intros H. rewrite <- filter_map_comm. apply Permutation_filter. exact H. Qed.
+
+Lemma map_back {A B} (back : B -> A) (f : A -> B) (l : list A) :
+  (forall a, In a l -> back (f a) = a) -> map back (map f l) = l.
+Proof. intros H. rewrite map_map. rewrite <- (map_id l) at 2. apply map_ext_in. exact H. Qed.
+
+Lemma offd_on_part g lo n (R : row) : offd g (on_part lo n R) = on_part lo n (offd g R).
+Proof.
+  unfold offd, Strength.on_part. rewrite !filter_filter. apply filter_ext. intros p. apply Bool.andb_comm.
+Qed.
+
+Lemma off_part_offd g lo n (R : row) : lo <= g < lo + n -> off_part lo n R = off_part lo n (offd g R).
+Proof.
+  intros Hg. unfold offd, Strength.off_part. rewrite filter_filter. apply filter_ext_in. intros p _.
+  destruct (in_range lo n (fst p)) eqn:E; simpl; [rewrite Bool.andb_false_r; reflexivity|].
+  rewrite Bool.andb_true_r. symmetry. apply Bool.negb_true_iff. apply Nat.eqb_neq. intros Heq. rewrite Heq in E.
+  apply Bool.not_true_iff_false in E. apply E. apply in_range_spec. exact Hg.
+Qed.
+
+Lemma on_off_perm lo n (Y : row) : Permutation (on_part lo n Y ++ off_part lo n Y) Y.
+Proof. apply (filter_split_perm (fun p : nat * F => in_range lo n (fst p))). Qed.
+
+Lemma nth_vars_loc (vars : list nat) lo n c : c < n -> nth c (firstn n (skipn lo vars)) 0 = nth (lo + c) vars 0.
+Proof. intros H. rewrite nth_firstn' by exact H. apply nth_skipn'. Qed.
+
+(* the row computed by the owner of global row g = lo + il from its local data, mapped back to global columns,
+   is a permutation of the sequential row *)
+Lemma par_classical_row_eq theta nv vars lo n il (R : row) cm :
+  il < n -> NoDup (map fst R) -> (R = [] \/ exists d, In (lo + il, d) R) ->
+  (forall p, In p (off_part lo n R) -> In (fst p) cm) ->
+  Permutation
+    (gather_row lo cm
+       (par_classical_row theta nv (firstn n (skipn lo vars)) (map (fun c => nth c vars 0) cm) il
+          (map (ren_on lo) (on_part lo n R)) (map (ren_off cm) (off_part lo n R))))
+    (classical_row theta nv vars (lo + il) R).
+Proof.
+  intros Hil Hn Hd Hcm. destruct Hd as [->|[d Hd]]; [apply Permutation_refl|].
+  set (g := lo + il). fold g in Hd.
+  assert (Hg : lo <= g < lo + n) by (unfold g; lia).
+  assert (Hne : R <> []) by (intros ->; contradiction).
+  assert (Hdon : In (il, d) (map (ren_on lo) (on_part lo n R))).
+  { apply in_map_iff. exists (g, d). split; [unfold ren_on, g; simpl; f_equal; lia|]. apply on_part_in. simpl. tauto. }
+  destruct (par_classical_row_canon theta nv (firstn n (skipn lo vars)) (map (fun c => nth c vars 0) cm) il
+              _ (map (ren_off cm) (off_part lo n R)) d (ron_nodup lo n R Hn) Hdon) as [rest [Hperm Heq]].
+  cbv zeta in Heq. rewrite Heq. clear Heq.
+  destruct (classical_row_canon theta nv vars g R Hn Hne) as [d' [rest_s [Hd' [Hperm_s Heq]]]].
+  cbv zeta in Heq. rewrite Heq. clear Heq.
+  assert (d' = d) by (eapply diag_is_unique; [exact Hn|exact Hd'|left; exact Hd]). subst d'.
+  rewrite (existsb_diag_true g R d Hd).
+  (* renamings and the predicates they induce *)
+  set (neg := ltb d zero).
+  set (keep := same_var nv (nth g vars 0) vars).
+  set (vi := nth il (firstn n (skipn lo vars)) 0).
+  assert (Hvi : vi = nth g vars 0) by (unfold vi, g; apply nth_vars_loc; exact Hil).
+  assert (Hkon : forall p, In p (on_part lo n R) ->
+            same_var nv vi (firstn n (skipn lo vars)) (fst (ren_on lo p)) = keep (fst p)).
+  { intros p Hp. apply on_part_in in Hp. unfold same_var, keep, ren_on. cbn [fst]. rewrite Hvi.
+    rewrite nth_vars_loc by lia. replace (lo + (fst p - lo)) with (fst p) by lia. reflexivity. }
+  assert (Hkoff : forall p, In p (off_part lo n R) ->
+            same_var nv vi (map (fun c => nth c vars 0) cm) (fst (ren_off cm p)) = keep (fst p)).
+  { intros p Hp. unfold same_var, keep, ren_off. cbn [fst]. rewrite Hvi.
+    rewrite (index_of_map (fun c => nth c vars 0)) by (apply Hcm; exact Hp). reflexivity. }
+  assert (Hoffd : offd il (map (ren_on lo) (on_part lo n R)) = map (ren_on lo) (on_part lo n (offd g R))).
+  { rewrite <- offd_on_part. unfold offd. rewrite filter_map_comm. f_equal. apply filter_ext_in.
+    intros p Hp. apply on_part_in in Hp. unfold ren_on. cbn [fst]. f_equal.
+    destruct (fst p =? g) eqn:E.
+    - apply Nat.eqb_eq in E. apply Nat.eqb_eq. unfold g in E. lia.
+    - apply Nat.eqb_neq in E. apply Nat.eqb_neq. unfold g in E. lia. }
+  assert (Hsub_on : forall p, In p (on_part lo n (offd g R)) -> In p (on_part lo n R)).
+  { intros p Hp. apply on_part_in in Hp. apply on_part_in. destruct Hp as [Hp Hr]. apply filter_In in Hp. tauto. }
+  (* the two thresholds coincide *)
+  assert (Hthr : Permutation
+            (kept_vals (same_var nv vi (firstn n (skipn lo vars))) (offd il (map (ren_on lo) (on_part lo n R))) ++
+             kept_vals (same_var nv vi (map (fun c => nth c vars 0) cm)) (map (ren_off cm) (off_part lo n R)))
+            (kept_vals keep (offd g R))).
+  { rewrite Hoffd. unfold Strength.kept_vals. rewrite !filter_map_comm, !map_map.
+    rewrite (filter_ext_in _ (fun p => keep (fst p)) (on_part lo n (offd g R)))
+      by (intros p Hp; apply Hkon; apply Hsub_on; exact Hp).
+    rewrite (filter_ext_in _ (fun p => keep (fst p)) (off_part lo n R)) by (intros p Hp; apply Hkoff; exact Hp).
+    cbn [ren_on ren_off snd]. rewrite (off_part_offd g lo n R Hg).
+    rewrite <- map_app, <- filter_app. apply Permutation_map. apply Permutation_filter. apply on_off_perm. }
+  fold vi. rewrite (extreme_from_perm neg _ _ Hthr).
+  set (thr := mul (extreme_from neg (sentinel neg) (kept_vals keep (offd g R))) theta).
+  set (T := fun p : nat * F => keep (fst p) && passes neg thr (snd p)).
+  unfold Strength.gather_row. cbn [fst snd map]. replace (il + lo) with g by (unfold g; lia).
+  cbn [app]. apply perm_skip.
+  (* on-process part *)
+  assert (Hon : Permutation
+            (map (fun p => (fst p + lo, snd p))
+                 (filter (fun p => same_var nv vi (firstn n (skipn lo vars)) (fst p) && passes neg thr (snd p)) rest))
+            (filter T (on_part lo n (offd g R)))).
+  { rewrite Hoffd in Hperm.
+    eapply Permutation_trans; [apply Permutation_map; apply (Permutation_filter_map (ren_on lo) _ _ _ Hperm)|].
+    rewrite map_back.
+    - rewrite (filter_ext_in _ T); [apply Permutation_refl|].
+      intros p Hp. unfold T. rewrite Hkon by (apply Hsub_on; exact Hp). reflexivity.
+    - intros p Hp. apply filter_In in Hp. destruct Hp as [Hp _]. apply on_part_in in Hp.
+      unfold ren_on. cbn [fst snd]. destruct p as [c v]. cbn [fst snd] in *. f_equal. lia. }
+  (* off-process part *)
+  assert (Hoff : Permutation
+            (map (fun p => (nth (fst p) cm 0, snd p))
+                 (filter (fun p => same_var nv vi (map (fun c => nth c vars 0) cm) (fst p) && passes neg thr (snd p))
+                         (sort_line (map (ren_off cm) (off_part lo n R)))))
+            (filter T (off_part lo n (offd g R)))).
+  { eapply Permutation_trans; [apply Permutation_map; apply (Permutation_filter_map (ren_off cm) _ _ _ (sort_line_perm F _))|].
+    rewrite map_back.
+    - rewrite <- (off_part_offd g lo n R Hg). rewrite (filter_ext_in _ T); [apply Permutation_refl|].
+      intros p Hp. unfold T. rewrite Hkoff by exact Hp. reflexivity.
+    - intros p Hp. apply filter_In in Hp. destruct Hp as [Hp _].
+      unfold ren_off. cbn [fst snd]. destruct p as [c v]. cbn [fst snd] in *. f_equal.
+      apply index_of_nth. apply (Hcm (c, v)). exact Hp. }
+  eapply Permutation_trans; [apply Permutation_app; [exact Hon|exact Hoff]|].
+  rewrite <- filter_app.
+  eapply Permutation_trans; [apply Permutation_filter; apply on_off_perm|].
+  apply Permutation_filter. apply Permutation_sym. exact Hperm_s.
+Qed.
+
+(* generic last step: filtering the renamed on/off parts and mapping back = filtering the global row *)
+Lemma gather_filter_perm lo n cm (Y rest : row) (f1 f2 T : nat * F -> bool) :
+  Permutation rest (map (ren_on lo) (on_part lo n Y)) ->
+  (forall p, In p (off_part lo n Y) -> In (fst p) cm) ->
+  (forall p, In p (on_part lo n Y) -> f1 (ren_on lo p) = T p) ->
+  (forall p, In p (off_part lo n Y) -> f2 (ren_off cm p) = T p) ->
+  Permutation
+    (map (fun p => (fst p + lo, snd p)) (filter f1 rest) ++
+     map (fun p => (nth (fst p) cm 0, snd p)) (filter f2 (sort_line (map (ren_off cm) (off_part lo n Y)))))
+    (filter T Y).
+Proof.
+  intros Hperm Hcm H1 H2.
+  assert (Hon : Permutation (map (fun p => (fst p + lo, snd p)) (filter f1 rest)) (filter T (on_part lo n Y))).
+  { eapply Permutation_trans; [apply Permutation_map; apply (Permutation_filter_map (ren_on lo) _ _ _ Hperm)|].
+    rewrite map_back.
+    - rewrite (filter_ext_in _ T); [apply Permutation_refl|exact H1].
+    - intros p Hp. apply filter_In in Hp. destruct Hp as [Hp _]. apply on_part_in in Hp.
+      unfold ren_on. cbn [fst snd]. destruct p as [c v]. cbn [fst snd] in *. f_equal. lia. }
+  assert (Hoff : Permutation
+            (map (fun p => (nth (fst p) cm 0, snd p)) (filter f2 (sort_line (map (ren_off cm) (off_part lo n Y)))))
+            (filter T (off_part lo n Y))).
+  { eapply Permutation_trans;
+      [apply Permutation_map; apply (Permutation_filter_map (ren_off cm) _ _ _ (sort_line_perm F _))|].
+    rewrite map_back.
+    - rewrite (filter_ext_in _ T); [apply Permutation_refl|exact H2].
+    - intros p Hp. apply filter_In in Hp. destruct Hp as [Hp _].
+      unfold ren_off. cbn [fst snd]. destruct p as [c v]. cbn [fst snd] in *. f_equal.
+      apply index_of_nth. apply (Hcm (c, v)). exact Hp. }
+  eapply Permutation_trans; [apply Permutation_app; [exact Hon|exact Hoff]|].
+  rewrite <- filter_app. apply Permutation_filter. apply on_off_perm.
+Qed.
+
+(* ---------- symmetric measure, distributed ---------- *)
+Notation par_sym_info := (par_sym_info F zero mul ltb big nbig).
+Notation par_symmetric_row := (par_symmetric_row F zero ltb).
+
+Lemma sym_info_diag theta g (R : row) d :
+  NoDup (map fst R) -> In (g, d) R ->
+  sym_info theta g R =
+  (ltb d zero, mul (extreme_from (ltb d zero) (sentinel (ltb d zero)) (map snd (offd g R))) theta).
+Proof.
+  intros Hn Hd. apply (info_spec_unique theta g R); [exact Hn|apply sym_info_spec; exact Hn|].
+  right. split; [intros ->; contradiction|]. exists d, (extreme_from (ltb d zero) (sentinel (ltb d zero)) (map snd (offd g R))).
+  split; [left; exact Hd|]. split; [apply extreme_is_extreme|reflexivity].
+Qed.
+
+Lemma offd_ron g lo n il (R : row) : g = lo + il ->
+  offd il (map (ren_on lo) (on_part lo n R)) = map (ren_on lo) (on_part lo n (offd g R)).
+Proof.
+  intros Eg. rewrite <- offd_on_part. unfold offd. rewrite filter_map_comm. f_equal. apply filter_ext_in.
+  intros p Hp. apply on_part_in in Hp. unfold ren_on. cbn [fst]. f_equal.
+  destruct (fst p =? g) eqn:E.
+  - apply Nat.eqb_eq in E. apply Nat.eqb_eq. lia.
+  - apply Nat.eqb_neq in E. apply Nat.eqb_neq. lia.
+Qed.
+
+Lemma par_sym_info_eq theta lo n il (R : row) cm :
+  il < n -> NoDup (map fst R) -> (R = [] \/ exists d, In (lo + il, d) R) ->
+  par_sym_info theta il (map (ren_on lo) (on_part lo n R)) (map (ren_off cm) (off_part lo n R)) =
+  sym_info theta (lo + il) R.
+Proof.
+  intros Hil Hn Hd. destruct Hd as [->|[d Hd]]; [reflexivity|].
+  set (g := lo + il). fold g in Hd.
+  assert (Hg : lo <= g < lo + n) by (unfold g; lia).
+  rewrite (sym_info_diag theta g R d Hn Hd).
+  assert (Hdon : In (il, d) (map (ren_on lo) (on_part lo n R))).
+  { apply in_map_iff. exists (g, d). split; [unfold ren_on, g; simpl; f_equal; lia|]. apply on_part_in. simpl. tauto. }
+  unfold Strength.par_sym_info.
+  destruct (prep_row_shape F il _ (ron_nodup lo n R Hn)) as [[d' [rest [Hp [Hin' [Hperm Hrest]]]]]|[_ Hno]].
+  2:{ exfalso. apply (Hno _ Hdon). reflexivity. }
+  assert (d' = d) by (assert (E := nodup_fst_unique F _ _ _ (ron_nodup lo n R Hn) Hin' Hdon eq_refl); congruence). subst d'.
+  rewrite Hp. cbn [Strength.split_diag fst snd]. rewrite Nat.eqb_refl. f_equal. f_equal.
+  rewrite extreme_from_app. apply extreme_from_perm.
+  assert (Hperm' : Permutation rest (map (ren_on lo) (on_part lo n (offd g R))))
+    by (rewrite <- (offd_ron g lo n il R eq_refl); exact Hperm).
+  clear Hperm. rename Hperm' into Hperm.
+  eapply Permutation_trans;
+    [apply Permutation_app; [apply Permutation_map; exact Hperm|apply Permutation_map; apply sort_line_perm]|].
+  rewrite !map_map. cbn [ren_on ren_off snd]. rewrite (off_part_offd g lo n R Hg).
+  rewrite <- map_app. apply Permutation_map. apply on_off_perm.
+Qed.
+
+Lemma par_symmetric_row_eq infos infos_loc off_infos lo n il (R : row) cm :
+  il < n -> NoDup (map fst R) -> (R = [] \/ exists d, In (lo + il, d) R) ->
+  (forall p, In p (off_part lo n R) -> In (fst p) cm) ->
+  nth il infos_loc info_default = nth (lo + il) infos info_default ->
+  (forall p, In p (on_part lo n R) -> nth (fst p - lo) infos_loc info_default = nth (fst p) infos info_default) ->
+  (forall p, In p (off_part lo n R) ->
+             nth (index_of (fst p) cm) off_infos info_default = nth (fst p) infos info_default) ->
+  Permutation
+    (gather_row lo cm
+       (par_symmetric_row infos_loc off_infos il
+          (map (ren_on lo) (on_part lo n R)) (map (ren_off cm) (off_part lo n R))))
+    (symmetric_row infos (lo + il) R).
+Proof.
+  intros Hil Hn Hd Hcm Hme Hon Hoff. destruct Hd as [->|[d Hd]]; [apply Permutation_refl|].
+  set (g := lo + il). fold g in Hd, Hme.
+  assert (Hg : lo <= g < lo + n) by (unfold g; lia).
+  assert (Hne : R <> []) by (intros ->; contradiction).
+  assert (Hdon : In (il, d) (map (ren_on lo) (on_part lo n R))).
+  { apply in_map_iff. exists (g, d). split; [unfold ren_on, g; simpl; f_equal; lia|]. apply on_part_in. simpl. tauto. }
+  rewrite symmetric_row_kernel.
+  destruct (row_kernel_canon (sym_test infos g) g R (sym_test_perm_inv infos g) Hn Hne) as [d' [rest_s [Hd' [Hperm_s Heq]]]].
+  rewrite Heq. clear Heq.
+  assert (d' = d) by (eapply diag_is_unique; [exact Hn|exact Hd'|left; exact Hd]). subst d'.
+  rewrite (existsb_diag_true g R d Hd).
+  unfold Strength.par_symmetric_row.
+  destruct (prep_row_shape F il _ (ron_nodup lo n R Hn)) as [[d' [rest [Hp [Hin' [Hperm Hrest]]]]]|[_ Hno]].
+  2:{ exfalso. apply (Hno _ Hdon). reflexivity. }
+  assert (d' = d) by (assert (E := nodup_fst_unique F _ _ _ (ron_nodup lo n R Hn) Hin' Hdon eq_refl); congruence). subst d'.
+  rewrite Hp. cbn [fst snd]. unfold Strength.gather_row. cbn [fst snd map app].
+  replace (il + lo) with g by (unfold g; lia). apply perm_skip.
+  assert (Hperm' : Permutation rest (map (ren_on lo) (on_part lo n (offd g R))))
+    by (rewrite <- (offd_ron g lo n il R eq_refl); exact Hperm).
+  clear Hperm. rename Hperm' into Hperm.
+  eapply Permutation_trans.
+  - rewrite (off_part_offd g lo n R Hg).
+    apply (gather_filter_perm lo n cm (offd g R) rest _ _ (sym_test infos g d (offd g R))).
+    + exact Hperm.
+    + intros p Hp'. apply Hcm. rewrite (off_part_offd g lo n R Hg). exact Hp'.
+    + intros p Hp'. unfold sym_test, ren_on. cbn [fst snd]. rewrite Hme. rewrite Hon; [reflexivity|].
+      apply on_part_in in Hp'. apply on_part_in. destruct Hp' as [Hp' Hr]. apply filter_In in Hp'. tauto.
+    + intros p Hp'. unfold sym_test, ren_off. cbn [fst snd]. rewrite Hme. rewrite Hoff; [reflexivity|].
+      rewrite (off_part_offd g lo n R Hg). exact Hp'.
+  - apply Permutation_filter. apply Permutation_sym. exact Hperm_s.
+Qed.
+
+(* ---------- distributed = sequential: assembling ranks ---------- *)
+(* every non-empty row stores its diagonal entry (the property's quantifier) *)
+Definition rows_diag (rows : list row) : Prop :=
+  forall i, nth i rows [] = [] \/ exists d, In (i, d) (nth i rows []).
+
+Lemma indexed_combine_map {A B C} (f : A -> B) (h : A -> C) s (l : list A) :
+  indexed_from s (combine (map f l) (map h l)) = map (fun ir => (fst ir, (f (snd ir), h (snd ir)))) (indexed_from s l).
+Proof. revert s; induction l as [|x l IH]; intros s; simpl; [reflexivity|]. rewrite IH. reflexivity. Qed.
+
+Lemma Forall2_indexed {A Y} (P : Y -> Y -> Prop) (g1 g2 : nat * A -> Y) lo s (l : list A) :
+  (forall il r, In (il, r) (indexed_from s l) -> P (g1 (il, r)) (g2 (lo + il, r))) ->
+  Forall2 P (map g1 (indexed_from s l)) (map g2 (indexed_from (lo + s) l)).
+Proof.
+  revert s; induction l as [|x l IH]; intros s H; simpl; [constructor|].
+  constructor; [apply H; left; reflexivity|].
+  replace (S (lo + s)) with (lo + S s) by lia. apply IH. intros il r Hin. apply H. right. exact Hin.
+Qed.
+
+Lemma Forall2_indexed0 {A Y} (P : Y -> Y -> Prop) (g1 g2 : nat * A -> Y) lo (l : list A) :
+  (forall il r, In (il, r) (indexed_from 0 l) -> P (g1 (il, r)) (g2 (lo + il, r))) ->
+  Forall2 P (map g1 (indexed_from 0 l)) (map g2 (indexed_from lo l)).
+Proof. intros H. assert (G := Forall2_indexed P g1 g2 lo 0 l H). rewrite Nat.add_0_r in G. exact G. Qed.
+
+Lemma assemble {Y} (P : Y -> Y -> Prop) (rankfn : rank_in F -> list Y) (f : nat -> row -> Y) (allrows : list row) :
+  (forall lo n, lo + n <= length allrows ->
+     Forall2 P (rankfn (mk_rank F lo n (firstn n (skipn lo allrows))))
+               (map (fun ir => f (fst ir) (snd ir)) (indexed_from lo (firstn n (skipn lo allrows))))) ->
+  forall part lo, lo + list_sum part = length allrows ->
+    Forall2 P (flat_map rankfn (distribute F lo part (skipn lo allrows)))
+              (map (fun ir => f (fst ir) (snd ir)) (indexed_from lo (skipn lo allrows))).
+Proof.
+  intros Hrank part. induction part as [|n part IH]; intros lo Hsum; simpl in *.
+  - rewrite skipn_all2 by lia. constructor.
+  - assert (E : indexed_from lo (skipn lo allrows) =
+                indexed_from lo (firstn n (skipn lo allrows)) ++ indexed_from (lo + n) (skipn (lo + n) allrows)).
+    { rewrite <- (firstn_skipn n (skipn lo allrows)) at 1.
+      rewrite indexed_from_app. rewrite firstn_length_le by (rewrite skipn_length; lia).
+      rewrite skipn_skipn'. reflexivity. }
+    rewrite E, map_app, skipn_skipn'.
+    apply Forall2_app; [apply Hrank; lia|apply IH; lia].
+Qed.
+
+Lemma Forall2_eq {Y} (l l' : list Y) : Forall2 eq l l' -> l = l'.
+Proof. induction 1; congruence. Qed.
+
+Lemma block_row lo n (allrows : list row) il r :
+  In (il, r) (indexed_from 0 (firstn n (skipn lo allrows))) ->
+  il < n /\ il < length (firstn n (skipn lo allrows)) /\ r = nth (lo + il) allrows [] /\ In r (firstn n (skipn lo allrows)).
+Proof.
+  intros H. apply indexed_from_in in H. destruct H as [[_ Hlt] Hnth]. rewrite Nat.sub_0_r in Hnth. simpl in Hlt.
+  assert (Hn : il < n) by (rewrite firstn_length in Hlt; lia).
+  split; [exact Hn|]. split; [exact Hlt|]. split.
+  - apply nth_error_nth with (d := []) in Hnth. rewrite nth_firstn' in Hnth by exact Hn. rewrite nth_skipn' in Hnth. congruence.
+  - eapply nth_error_In. exact Hnth.
+Qed.
+
+Lemma mk_rank_cm_covers lo n (blk : list row) r p :
+  In r blk -> In p (off_part lo n r) -> In (fst p) (rk_colmap F (mk_rank F lo n blk)).
+Proof.
+  intros Hr Hp. simpl. apply sort_uniq_in. apply in_flat_map. exists r. split; [exact Hr|]. apply in_map. exact Hp.
+Qed.
+
+Notation par_classical_strength := (par_classical_strength F zero mul ltb big nbig).
+Notation par_symmetric_strength := (par_symmetric_strength F zero mul ltb big nbig).
+
+Theorem par_classical_strength_eq theta nv vars part (rows : list row) :
+  rows_nodup rows -> rows_diag rows -> list_sum part = length rows ->
+  Forall2 (@Permutation (nat * F))
+    (par_classical_strength theta nv vars part rows)
+    (classical_strength F zero mul ltb big nbig theta nv vars rows).
+Proof.
+  intros Hn Hd Hsum. unfold Strength.par_classical_strength, classical_strength, indexed.
+  apply (assemble (@Permutation (nat * F)) _ (fun i r => classical_row theta nv vars i r) rows); [|exact Hsum].
+  intros lo n Hle. set (blk := firstn n (skipn lo rows)).
+  unfold Strength.par_classical_rank. cbn [rk_on rk_off rk_n rk_lo mk_rank].
+  unfold indexed. rewrite indexed_combine_map, map_map. cbn [fst snd].
+  apply Forall2_indexed0. intros il r Hin. cbn [fst snd].
+  destruct (block_row lo n rows il r Hin) as [Hil [_ [Hr Hrin]]].
+  apply (par_classical_row_eq theta nv vars lo n il r).
+  - exact Hil.
+  - rewrite Hr. apply rows_nodup_nth. exact Hn.
+  - rewrite Hr. apply Hd.
+  - intros p Hp. apply (mk_rank_cm_covers lo n blk r p Hrin Hp).
+Qed.
+
+Lemma par_sym_infos_eq theta part (rows : list row) :
+  rows_nodup rows -> rows_diag rows -> list_sum part = length rows ->
+  concat (map (par_sym_infos_rank F zero mul ltb big nbig theta) (distribute F 0 part rows)) =
+  sym_infos F zero mul ltb big nbig theta rows.
+Proof.
+  intros Hn Hd Hsum. rewrite <- flat_map_concat_map. apply Forall2_eq. unfold sym_infos, indexed.
+  apply (assemble eq _ (fun i r => sym_info theta i r) rows); [|exact Hsum].
+  intros lo n Hle. unfold par_sym_infos_rank. cbn [rk_on rk_off mk_rank].
+  unfold indexed. rewrite indexed_combine_map, map_map. cbn [fst snd].
+  apply Forall2_indexed0. intros il r Hin. cbn [fst snd].
+  destruct (block_row lo n rows il r Hin) as [Hil [_ [Hr Hrin]]].
+  apply (par_sym_info_eq theta lo n il r).
+  - exact Hil.
+  - rewrite Hr. apply rows_nodup_nth. exact Hn.
+  - rewrite Hr. apply Hd.
+Qed.
+
+Lemma combine_map_self {A B} (h : A -> B) (l : list A) : combine l (map h l) = map (fun x => (x, h x)) l.
+Proof. induction l as [|x l IH]; simpl; [reflexivity|]. rewrite IH. reflexivity. Qed.
+
+Lemma flat_map_map {A B C} (g : A -> B) (h : B -> list C) l : flat_map h (map g l) = flat_map (fun x => h (g x)) l.
+Proof. induction l as [|x l IH]; simpl; [reflexivity|]. rewrite IH. reflexivity. Qed.
+
+Theorem par_symmetric_strength_eq theta part (rows : list row) :
+  rows_nodup rows -> rows_diag rows -> list_sum part = length rows ->
+  Forall2 (@Permutation (nat * F))
+    (par_symmetric_strength theta part rows)
+    (symmetric_strength F zero mul ltb big nbig theta rows).
+Proof.
+  intros Hn Hd Hsum. unfold Strength.par_symmetric_strength. cbv zeta.
+  rewrite (par_sym_infos_eq theta part rows Hn Hd Hsum).
+  rewrite combine_map_self, flat_map_map. cbn [fst snd].
+  unfold symmetric_strength, indexed. set (infos := sym_infos F zero mul ltb big nbig theta rows).
+  apply (assemble (@Permutation (nat * F)) _ (fun i r => symmetric_row infos i r) rows); [|exact Hsum].
+  intros lo n Hle. set (blk := firstn n (skipn lo rows)).
+  assert (Hlen : length blk = n) by (unfold blk; rewrite firstn_length_le; [reflexivity|rewrite skipn_length; lia]).
+  (* the local slice of the first loop's results *)
+  assert (Hloc : forall c, c < n ->
+            nth c (par_sym_infos_rank F zero mul ltb big nbig theta (mk_rank F lo n blk)) info_default =
+            nth (lo + c) infos info_default).
+  { intros c Hc. unfold par_sym_infos_rank. cbn [rk_on rk_off mk_rank].
+    unfold indexed. rewrite indexed_combine_map, map_map. cbn [fst snd].
+    fold (indexed blk). rewrite (nth_map_indexed' _ blk c [] info_default) by lia. cbn [fst snd].
+    unfold infos. rewrite sym_infos_nth.
+    assert (Hr : nth c blk [] = nth (lo + c) rows []) by (unfold blk; rewrite nth_firstn' by exact Hc; apply nth_skipn').
+    rewrite Hr.
+    apply (par_sym_info_eq theta lo n c (nth (lo + c) rows [])); [exact Hc|apply rows_nodup_nth; exact Hn|apply Hd]. }
+  unfold Strength.par_symmetric_rank. cbn [rk_on rk_off rk_n rk_lo mk_rank].
+  unfold indexed. rewrite indexed_combine_map, map_map. cbn [fst snd].
+  apply Forall2_indexed0. intros il r Hin. cbn [fst snd].
+  destruct (block_row lo n rows il r Hin) as [Hil [_ [Hr Hrin]]].
+  apply (par_symmetric_row_eq infos _ _ lo n il r).
+  - exact Hil.
+  - rewrite Hr. apply rows_nodup_nth. exact Hn.
+  - rewrite Hr. apply Hd.
+  - intros p Hp. apply (mk_rank_cm_covers lo n blk r p Hrin Hp).
+  - apply Hloc. exact Hil.
+  - intros p Hp. apply on_part_in in Hp. destruct Hp as [_ Hp].
+    rewrite Hloc by lia. f_equal. lia.
+  - intros p Hp. apply (index_of_map' (fun g => nth g infos info_default)).
+    apply (mk_rank_cm_covers lo n blk r p Hrin Hp).
+Qed.
+
 End Order.
+
+(* ---------- the sentinel is unobservable in the classical measure ---------- *)
+Section Sentinel.
+Variable F : Type.
+Variable zero : F.
+Variable mul : F -> F -> F.
+Variable ltb : F -> F -> bool.
+Notation row := (list (nat * F)).
+
+(* v lies strictly between the two sentinels *)
+Definition inside (big nbig v : F) : Prop := ltb v big = true /\ ltb nbig v = true.
+
+Lemma extreme_from_sentinel_indep big nbig big' nbig' neg (l : list F) :
+  l <> [] -> (forall v, In v l -> inside big nbig v /\ inside big' nbig' v) ->
+  extreme_from F ltb neg (sentinel F big nbig neg) l = extreme_from F ltb neg (sentinel F big' nbig' neg) l.
+Proof.
+  intros Hne H. destruct l as [|v l]; [contradiction|]. unfold extreme_from. simpl.
+  destruct (H v (or_introl eq_refl)) as [[H1 H2] [H3 H4]].
+  f_equal. unfold fstep, sentinel. destruct neg; [rewrite H2, H4|rewrite H1, H3]; reflexivity.
+Qed.
+
+Lemma classical_row_sentinel_indep big nbig big' nbig' theta nv vars i (r : row) :
+  (forall p, In p r -> inside big nbig (snd p) /\ inside big' nbig' (snd p)) ->
+  classical_row F zero mul ltb big nbig theta nv vars i r =
+  classical_row F zero mul ltb big' nbig' theta nv vars i r.
+Proof.
+  intros H. unfold classical_row.
+  assert (Hperm := prep_row_perm F i r).
+  destruct (prep_row F i r) as [|q r'] eqn:E; [reflexivity|].
+  assert (S := split_diag_shape F zero i (q :: r')).
+  destruct (split_diag F zero i (q :: r')) as [[has d] rest]. cbv zeta. f_equal.
+  assert (Hrest : forall p, In p rest -> In p r).
+  { intros p Hp. apply (Permutation_in _ Hperm). destruct has; [rewrite S; right; exact Hp|destruct S as [S _]; rewrite <- S; exact Hp]. }
+  set (keep := same_var nv (nth i vars 0) vars).
+  destruct (kept_vals F keep rest) as [|v l] eqn:Ek.
+  - (* no candidate: nothing passes the variable filter, the threshold is irrelevant *)
+    apply filter_ext_in. intros p Hp.
+    destruct (keep (fst p)) eqn:Ekp; [|reflexivity]. exfalso.
+    assert (Hin : In (snd p) (kept_vals F keep rest)).
+    { unfold kept_vals. apply in_map. apply filter_In. split; assumption. }
+    rewrite Ek in Hin. contradiction.
+  - rewrite <- Ek.
+    rewrite (extreme_from_sentinel_indep big nbig big' nbig' (ltb d zero) (kept_vals F keep rest)); [reflexivity| |].
+    + rewrite Ek. discriminate.
+    + intros w Hw. unfold kept_vals in Hw. apply in_map_iff in Hw. destruct Hw as [p [<- Hp]].
+      apply filter_In in Hp. apply H. apply Hrest. tauto.
+Qed.
+
+End Sentinel.
